@@ -54,6 +54,19 @@ def generate(rng, tier):
                     for pat in (pats if tier == "thorough" else rng.sample(pats, 3)):
                         data = place(rng, pat, n, off)
                         yield enc_line("int", n, encoding, bo, data, off), f"int-{'lsb' if bo == LSB else 'msb'}"
+    # still uncalibrated: context calibrators none of which applies to this packet, and no default calibrator — the value
+    # is the integer itself (an `int`, also beyond 2**53)
+    from harness.props import c06
+    from harness.xser import fnum
+    for n in (8, 16, 33, 56, 64):
+        for encoding in ("unsigned", "twosComplement"):
+            for pat in (0, (1 << n) - 1, (1 << n) - 3, rng.getrandbits(n)):
+                off = rng.randrange(8)
+                ctxs = [["ctx", [c06.cmp_sx("M", "==", "5", True)], ["poly", [fnum(Fraction(1, 2)), "1"]]],
+                        ["ctx", [c06.cmp_sx("M", ">", "7", False)], ["poly", [fnum(Fraction(3)), "0"]]]]
+                e = ["int", str(n), xser.S(encoding), xser.S(MSB), ["-", ctxs]]
+                items = [c06.P("M", "IntP", rng.choice([0, 1, 4, 6, 7]))]
+                yield f"enc {sx(e)} {hx(place(rng, pat, n, off))} {off} {sx(items)}", "int-contexts-none-applies"
     # over-reads and odd sizes (mirror territory, feeds C14)
     for n in (0, 8, 12, 16):
         for encoding in ("unsigned", "signed"):
